@@ -5,6 +5,7 @@ package gen
 
 import (
 	"fmt"
+	"regexp"
 	"sort"
 	"strings"
 
@@ -172,6 +173,9 @@ type Decorated struct {
 	// the number it stores for a token is the number it finds in the cell plus the token's own (the
 	// cell is the only memory a lexer of an -o parser has). One cell per Parser() call in every driver.
 	Lazy bool
+	// FieldN: another name for the int member of the %union (Go variants only; "" = n). Members of the
+	// union live next to the fields of the generated stack entry, so an everyday name must stay usable.
+	FieldN string
 }
 
 // Decorate returns a copy of s with union, tags, types and harness actions;
@@ -263,8 +267,17 @@ func (d *Decorated) Source(variant, pkg string) string {
 		s.Epilogue = d.goEpilogue(pkg, IsObject(variant))
 	}
 	s.HasEpilogue = true
-	return s.Render()
+	text := s.Render()
+	if d.FieldN != "" && variant != TS {
+		text = strings.ReplaceAll(text, "<n>", "<"+d.FieldN+">")
+		text = strings.ReplaceAll(text, "\n\tn int\n", "\n\t"+d.FieldN+" int\n")
+		text = fieldRef.ReplaceAllString(text, "${1}."+d.FieldN)
+	}
+	return text
 }
+
+// fieldRef: the places where the harness epilogue reads or writes the int member.
+var fieldRef = regexp.MustCompile(`\b(hxVal|hxInner|hxBefore|v)\.n\b`)
 
 func (d *Decorated) sortedToks() []string {
 	var ts []string
@@ -362,12 +375,21 @@ func nest() {
 		fmt.Println("<nested-parse>") // the trace of the inner parse is cut out by the reader of the outer one
 	}
 	PushContex()
+	var hxInner *ValType
 	func() {
 		defer func() { recover() }()
 		ParserInit()
-		Parser(outer.Input[len(outer.Input)/2:] + outer.Input[:len(outer.Input)/2]) // the two halves swapped: another token sequence
+		hxInner = Parser(outer.Input[len(outer.Input)/2:] + outer.Input[:len(outer.Input)/2]) // the two halves swapped: another token sequence
 	}()
+	var hxBefore ValType
+	if hxInner != nil {
+		hxBefore = *hxInner
+	}
 	PopContex()
+	// the value the nested parse returned belongs to the caller, also after the outer context is back
+	if hxInner != nil && (hxInner.n != hxBefore.n || hxInner.s != hxBefore.s) && outer.NestedChanged == "" {
+		outer.NestedChanged = fmt.Sprintf("a nested Parser() returned %d/%q; after PopContex() the same pointer reads %d/%q", hxBefore.n, hxBefore.s, hxInner.n, hxInner.s)
+	}
 	if IsTrace {
 		fmt.Println("</nested-parse>")
 	}
